@@ -52,13 +52,13 @@ Theorem C20_text_Sequence : forall n, n < 4294967296 -> parse_sequence (print_se
 Proof. exact parse_print_sequence. Qed.
 Theorem C20_text_LockTime : forall l, locktime_wf l = true -> parse_locktime (print_locktime l) = Ok l.
 Proof. exact parse_print_locktime. Qed.
-(* FINDING F17: `LockTime` derives Deserialize, and the derived code never looks at the threshold, so serde hands out values that violate the
-   type's own invariant: {"Blocks":500000000} deserializes to LockTime::Blocks(Height(500000000)), whose Display form "500000000" parses to
-   Seconds(Time(500000000)).  Known class: ~ locktime_wf.  The model's de_locktime is faithful to that; outside the class the full statement holds
-   (C20_text_LockTime above), and the class is exactly where it fails: *)
-Theorem C20_text_LockTime_deserialized_refuted :
-  exists v l, de_locktime v = Ok l /\ locktime_to_consensus l < 4294967296 /\ parse_locktime (print_locktime l) <> Ok l.
-Proof. exists (VMap [(VStr "Blocks"%lb, VU64 500000000)]), (Blocks 500000000). vm_compute. repeat split; congruence. Qed.
+(* F17 (repaired): Height / Time used to derive Deserialize, so serde handed out `Blocks(Height(500000000))`, whose printed form parses to the other
+   variant.  Their Deserialize now ends in from_consensus; the model's de_locktime follows.  Every LockTime that Deserialize returns satisfies the
+   type's invariant, hence survives Display -> FromStr; and that invariant is exactly the class on which the text round trip holds. *)
+Theorem C20_serde_LockTime_validates : forall v l, de_locktime v = Ok l -> locktime_wf l = true.
+Proof. exact de_locktime_wf. Qed.
+Theorem C20_text_LockTime_deserialized : forall v l, de_locktime v = Ok l -> parse_locktime (print_locktime l) = Ok l.
+Proof. intros v l H. apply parse_print_locktime. exact (de_locktime_wf v l H). Qed.
 Theorem C20_text_LockTime_exact : forall l, locktime_to_consensus l < 4294967296 -> (parse_locktime (print_locktime l) = Ok l <-> locktime_wf l = true).
 Proof. exact parse_print_locktime_iff. Qed.
 Theorem C20_text_Height : forall h, h < C20_LOCK_TIME_THRESHOLD -> parse_height (print_height h) = Ok h.
@@ -121,8 +121,8 @@ Theorem C20_serde_Block : forall b, swf_block pt_ok b = true -> RT ser_block (de
 Proof. intros b W. split; [exact (rt_block pt_ok true b W)|exact (rt_block pt_ok false b W)]. Qed.
 Theorem C20_serde_TxOutSecrets : forall s, swf_secrets s = true -> RT ser_secrets de_secrets s.
 Proof. intros s W. split; [exact (rt_secrets true s W)|exact (rt_secrets false s W)]. Qed.
-(* LockTime keeps its variant (the derived Deserialize never looks at the threshold) *)
-Theorem C20_serde_LockTime : forall l, locktime_to_consensus l < 4294967296 -> RT (fun _ : bool => ser_locktime) (fun _ : bool => de_locktime) l.
+(* LockTime: every value of the type (heights below, times at or above the threshold) *)
+Theorem C20_serde_LockTime : forall l, locktime_wf l = true -> RT (fun _ : bool => ser_locktime) (fun _ : bool => de_locktime) l.
 Proof. intros l W. split; [exact (rt_locktime true l W)|exact (rt_locktime false l W)]. Qed.
 (* leaves: hash newtypes (every entry of the regenerated table), Script, blinding factors *)
 Theorem C20_serde_hash_newtypes : forall name len db pb b, In (name, (len, (db, pb))) hash_serde_table -> N.of_nat (length b) = len ->
@@ -175,7 +175,7 @@ Example C20_serde_examples :
   json_view (ser_value true (VExplicit 1)) = VSeq [VU64 1; VU64 72057594037927936] /\
   cbor_view (ser_asset false (AExplicit (repeat x07 32))) = VSeq [VU64 1; VBytes (repeat x07 32)] /\
   json_view (ser_asset true (AExplicit (repeat x00 31 ++ [x01]))) = VSeq [VU64 1; VStr "0100000000000000000000000000000000000000000000000000000000000000"%lb] /\
-  json_view (ser_locktime (Blocks 5)) = VMap [(VStr "Blocks"%lb, VU64 5)] /\ cbor_view (ser_locktime (Seconds 600000000)) = VSeq [VStr "Seconds"%lb; VU64 600000000] /\
+  json_view (ser_locktime (Blocks 5)) = VMap [(VStr "Blocks"%lb, VU64 5)] /\ de_locktime (VMap [(VStr "Blocks"%lb, VU64 500000000)]) = Err "notheight"%lb /\ cbor_view (ser_locktime (Seconds 600000000)) = VSeq [VStr "Seconds"%lb; VU64 600000000] /\
   de_params true (VMap [(VStr "signblockscript"%lb, VStr "51"%lb)]) = Ok PNull /\
   de_extdata true (VMap [(VStr "challenge"%lb, VStr "51"%lb)]) = Err "missing"%lb /\
   de_value (fun _ => true) true (VSeq [VU64 0; VU64 0]) = Err "trailing"%lb /\
@@ -200,6 +200,7 @@ Check (C20_text_hash_newtypes : forall name len db pb b,
 Check (C20_text_AssetBlindingFactor : forall b, length b = 32%nat -> tweak_ok b = true ->
   parse_bf hashlen_AssetBlindingFactor hash_parse_backward_AssetBlindingFactor (print_bf hash_display_backward_AssetBlindingFactor b) = Ok b).
 Check (C20_text_LockTime : forall l, locktime_wf l = true -> parse_locktime (print_locktime l) = Ok l).
+Check (C20_text_LockTime_deserialized : forall v l, de_locktime v = Ok l -> parse_locktime (print_locktime l) = Ok l).
 Check (C20_text_LockTime_exact : forall l, locktime_to_consensus l < 4294967296 -> (parse_locktime (print_locktime l) = Ok l <-> locktime_wf l = true)).
 Check (C20_text_OutPoint : forall o, length (o_txid o) = 32%nat -> o_vout o < 4294967296 -> parse_outpoint (print_outpoint o) = Ok o).
 Check (C20_text_EcdsaSighashType : forall v, is_variant ecdsa_sighash_variants v = true -> parse_ecdsa_sighash (print_ecdsa_sighash v) = Ok v).
